@@ -8,6 +8,7 @@ import (
 	"io"
 	"os"
 	"os/exec"
+	"strings"
 	"sync"
 )
 
@@ -74,7 +75,8 @@ func (r *Run) Sharded(n int, work func(job int) any, merge func(job int, raw jso
 			for {
 				cmd := exec.Command(os.Args[0], "-worker", "-tier", r.Tier, "-cap", r.cap.String())
 				cmd.Env = append(os.Environ(), "GOMAXPROCS=1")
-				cmd.Stderr = os.Stderr
+				head := &headWriter{max: 1 << 15}
+				cmd.Stderr = io.MultiWriter(&quietAfter{w: os.Stderr, max: 1 << 15}, head)
 				stdin, _ := cmd.StdinPipe()
 				stdout, _ := cmd.StdoutPipe()
 				if err := cmd.Start(); err != nil {
@@ -83,12 +85,43 @@ func (r *Run) Sharded(n int, work func(job int) any, merge func(job int, raw jso
 				}
 				rd := bufio.NewReaderSize(stdout, 1<<20)
 				replace := false
+				crashed := false
 				for job := range jobs {
 					fmt.Fprintf(stdin, "%d\n", job)
 					line, err := rd.ReadBytes('\n')
 					if err != nil {
 						if err != io.EOF || len(line) == 0 {
 							cmd.Wait()
+							h := head.String()
+							if strings.Contains(h, "fatal error: ") || strings.Contains(h, "panic: ") {
+								// the code under test brought the worker down: a violation
+								// of this job, not a harness failure; a fresh worker takes over
+								name := fmt.Sprintf("job %d", job)
+								if r.JobName != nil {
+									name = r.JobName(job)
+								}
+								lines := strings.Split(h, "\n")
+								if len(lines) > 30 {
+									lines = lines[:30]
+								}
+								first := lines[0]
+								for _, l := range lines {
+									if strings.HasPrefix(l, "fatal error: ") || strings.HasPrefix(l, "panic: ") {
+										first = l
+										break
+									}
+								}
+								if len(first) > 100 {
+									first = first[:100]
+								}
+								mu.Lock()
+								r.ViolationV(V{Key: "worker-crash " + name + ": " + first, What: fmt.Sprintf("%s: the process exploring it was brought down by the Go runtime; first lines of its stderr:\n%s", name, strings.Join(lines, "\n")), Case: map[string]any{"crash": true, "job": job}, NoConfirm: true})
+								r.inexhaustive = true
+								mu.Unlock()
+								replace = true
+								crashed = true
+								break
+							}
 							fail <- fmt.Sprintf("worker died on job %d: %v", job, err)
 							return
 						}
@@ -107,10 +140,12 @@ func (r *Run) Sharded(n int, work func(job int) any, merge func(job int, raw jso
 					}
 				}
 				stdin.Close()
-				if replace {
+				if replace && !crashed {
 					cmd.Process.Kill()
 				}
-				cmd.Wait()
+				if !crashed {
+					cmd.Wait()
+				}
 				if !replace {
 					return
 				}
